@@ -123,6 +123,34 @@ def run(tier):
     wnok, wbad, wr = dbrun.judge_db(wtrace, o, "judge refused Open during a compaction")
     jobs.append(("openwindow", wcases, []))
     res.append((wtrace, wnok, wbad, wr))
+    # a transient write failure of the log (ENOSPC injected by strace into the K-th write(2) of the WAL file): the Put that fails must have
+    # no effect - not now and not after the crash image is recovered - whatever later Puts do
+    nwf = 0
+    for K in ((2, 3, 4, 5) if thorough else (2, 3)):
+        u = dbgen.Uniq("w")
+        steps = [dbgen.open_step(5, 1 << 30, 1000)]
+        for i in range(5):
+            steps.append({"op": "put", "k": i, "v": u.next(), "pad": 10, "mf": True})      # distinct keys: no later Put hides an earlier one
+        # (the session ends with a Close that may itself fail on the poisoned log writer: what a restart sees is what the crash image shows)
+        steps += [{"op": "getall", "k": 5}, {"op": "crashcheck", "k": 5}, {"op": "close", "mf": True}]
+        work = common.scratch("C17-walfault-%d" % K)
+        trace = os.path.join(work, "trace.ndjson")
+        ddir = os.path.join(work, "d")
+        with open(os.path.join(work, "in.json"), "w") as f:
+            json.dump({"keys": [k.hex() for k in dbrun.key_bytes()], "dir": ddir, "cases": [{"steps": steps}], "gates": False, "seed": 1}, f)
+        slog = os.path.join(work, "strace.log")
+        sc = ["strace", "-f", "-o", slog, "-e", "trace=write", "-P", os.path.join(ddir, "case0", "wal", "000000.wal"),
+              "-e", "inject=write:error=ENOSPC:when=%d" % K, binary, "db", os.path.join(work, "in.json"), trace]
+        rc, out, err, to = common.run_proc(sc, 120)
+        hit = os.path.exists(slog) and "INJECTED" in open(slog, errors="replace").read()
+        if not hit or not os.path.exists(trace):
+            o.problem("WAL write fault %d was not placed (rc=%s)" % (K, rc))
+            continue
+        nwf += 1
+        fnok, fbad, fr = dbrun.judge_db(trace, o, "judge transient log write failure %d" % K)
+        jobs.append(("walfault-%d" % K, [steps], []))
+        res.append((trace, fnok, fbad, fr))
+    o.extra["log_write_faults_placed"] = nwf
     # sessions with the direct-I/O WAL (on a block-device file system)
     dcases = directio_cases(rng, 24 if thorough else 8)
     dtrace = dbrun.run_db_batch(binary, "C17-directio", dcases, seed=SEED, timeout=600, disk=True)
